@@ -220,7 +220,7 @@ for _meth in ("render_to_output", "render_to_output_async"):
         f"liquid2.builtin.tags.extends_tag:BlockNode.{_meth}",
         props=["C08"],
         params={"self": BLOCKNODE,
-                "context": Rec("RenderContext", _module="liquid2.context",
+                "context": Rec("RenderContext", _module="liquid2.context", disabled_tags=Any_,
                                tag_namespace=Opaque(lambda ex, n: __import__("pyvc.values", fromlist=["HDict"]).HDict(concrete={"extends": DictOfLists().fresh(ex, "stacks", True)}), "ns")),
                 "buffer": Any_},
         obj_fields=BN_FIELDS,
